@@ -564,7 +564,9 @@ def inject_fault(rng, spec, q, kind):
     if kind == "unknown-var":
         return with_item(rng.choice(["zz", "st.zz", "zz.p", "g.zz", sn + ".zz", "zz[0]", "a.b.c", names[0] + "x", spec["name"], "st.p.q", "."]))
     if kind == "non-numeric":
-        return with_item(a + rng.choice(["[x]", "[1:x]", "[1.5]", "[0:1:x]", "[ ]", "[:]", "[1:]", "[0x1]", "[1e1]", "[--1]", "[1][y]"]))
+        return with_item(a + rng.choice(["[x]", "[1:x]", "[1.5]", "[0:1:x]", "[ ]", "[:]", "[1:]", "[0x1]", "[1e1]", "[--1]", "[1][y]",
+                                         # tokens outside ASCII (percent-escaped): error messages echo them
+                                         "[%C3%A9]", "[0:%E2%82%AC]", "[%C3%A9%C3%A9:1]"]))
     if kind == "over-long":
         return with_item(a + rng.choice(["[1:2:3:4]", "[0:1:2:3:4]", "[0][1:2:3:4]", "[1:1:1:1]"]))
     if kind == "too-many-index":
